@@ -265,17 +265,21 @@ def run(ctx):
     ctx.rule("R-4.3", "archive exactly once, only on replacement, removing the path from the live table before the commit", floor=5)
     ctx.rule("R-4.5", "the idle guard compares path numbers in one representation (shared with C03 R-3.8)", floor=3)
     ctx.rule("R-4.4", "restart round trip of accumulators: every path of traj_data is persisted, keys agree (shared with C06 R-6.1)", floor=2)
+    ctx.rule("R-4.8", "the archived row of a replaced path is on disk before restart.toml records the path as gone (= C08 R-8.9: per-step file writes closed or flushed before the commit)", floor=3)
     ctx.attempt(r41, ctx)
     ctx.attempt(r42, ctx)
     ctx.attempt(r43, ctx)
     ctx.attempt(r44, ctx)
     ctx.attempt(r45, ctx)
     from .shared import commit_is_final, restart_preserves_settings
+    from .c08 import r89
+    ctx.attempt(r89, ctx, "R-4.8")
     ctx.attempt(commit_is_final, ctx, "R-4.6")
     ctx.attempt(restart_preserves_settings, ctx, "R-4.7", " - in particular output.data_file: rows written after the restart go to another file and the weights of the run no longer add up")
 
 
 VARIANTS = [
+    B("c04-data-rows-buffered-handle", REPEX, '    with open(state.data_file, "a") as fp:\n        for pn in pn_archive:', '    fp = state.__dict__.setdefault("_data_fp", open(state.data_file, "a"))\n    if True:\n        for pn in pn_archive:', "R-4.8", control=True, why="seeded C04_f / C08_d (handle kept open between steps)"),
     B("c04-restart-resets-data-file", SETUP, '        curr["restarted_from"] = config["current"]["cstep"]\n', '        curr["restarted_from"] = config["current"]["cstep"]\n        config["output"]["data_file"] = os.path.join(config["output"]["data_dir"], "infretis_data.txt")\n', "R-4.7", control=True, why="seeded C04_d"),
     B("c04-record-weights-after-commit", REPEX, "        # record weights\n        locked_trajs = self.locked_paths()\n        if self._last_prob is None:\n            self.prob\n        for idx, live in enumerate(self.live_paths()):\n            if live not in locked_trajs:\n                self.traj_data[live][\"frac\"] += self._last_prob[:-1][idx, :]\n\n", "", "R-4.6", control=True, why="seeded C04_c",
       also=[(REPEX, "        # save for possible restart\n        self.write_toml()\n\n        return md_items", "        # save for possible restart\n        self.write_toml()\n        locked_trajs = self.locked_paths()\n        if self._last_prob is None:\n            self.prob\n        for idx, live in enumerate(self.live_paths()):\n            if live not in locked_trajs:\n                self.traj_data[live][\"frac\"] += self._last_prob[:-1][idx, :]\n\n        return md_items")]),
